@@ -177,28 +177,43 @@ where
 
 fn main() {
     let a = parse_args();
-    // injected and internal panics are data, not noise on stderr
-    std::panic::set_hook(Box::new(|_| {}));
+    // injected and internal panics are data, not noise on stderr; the last message is kept so that a
+    // panic nobody catches (a harness bug) can still be reported
+    std::panic::set_hook(Box::new(|info| {
+        if let Ok(mut m) = LAST_PANIC.lock() {
+            *m = format!("{}", info);
+        }
+    }));
     let mut tr = out::Trace::new(&a.out, a.journal, a.num("max_events", 1_000_000_000) as u64);
+    let r = std::panic::catch_unwind(std::panic::AssertUnwindSafe(|| dispatch(&a, &mut tr)));
+    if r.is_err() {
+        eprintln!("itv: uncaught panic in the harness: {}", LAST_PANIC.lock().map(|m| m.clone()).unwrap_or_default());
+        std::process::exit(101);
+    }
+    tr.finish(&a.stats);
+}
+
+static LAST_PANIC: std::sync::Mutex<String> = std::sync::Mutex::new(String::new());
+
+fn dispatch(a: &Args, tr: &mut out::Trace) {
     match a.coll.as_str() {
-        "keytree" => key_main::<KeyExpTree<XKey, i32, i32>>(&a, &mut tr),
-        "keylist" => key_main::<KeyExpList<XKey, i32, i32>>(&a, &mut tr),
-        "maptree-i32" => ord_main::<MapTree<OKey, i32>>(&a, &mut tr),
-        "maptree-str" => ord_main::<MapTree<OKey, String>>(&a, &mut tr),
-        "maplist-i32" => ord_main::<MapList<OKey, i32>>(&a, &mut tr),
-        "maplist-str" => ord_main::<MapList<OKey, String>>(&a, &mut tr),
-        "settree-i32" => ord_main::<SetTree<OKey, PV<i32>>>(&a, &mut tr),
-        "settree-str" => ord_main::<SetTree<OKey, PV<String>>>(&a, &mut tr),
-        "setlist-i32" => ord_main::<SetList<PV<i32>>>(&a, &mut tr),
-        "setlist-str" => ord_main::<SetList<PV<String>>>(&a, &mut tr),
-        "seg-i32" if a.driver == "matrix" => seg::run_matrix(&mut tr, a.num("from", 0), a.num("to", 528)),
-        "seg-i32" => seg_main::<i32>(&a, &mut tr),
-        "seg-u32" => seg_main::<u32>(&a, &mut tr),
-        "seg-i64" => seg_main::<i64>(&a, &mut tr),
+        "keytree" => key_main::<KeyExpTree<XKey, i32, i32>>(a, tr),
+        "keylist" => key_main::<KeyExpList<XKey, i32, i32>>(a, tr),
+        "maptree-i32" => ord_main::<MapTree<OKey, i32>>(a, tr),
+        "maptree-str" => ord_main::<MapTree<OKey, String>>(a, tr),
+        "maplist-i32" => ord_main::<MapList<OKey, i32>>(a, tr),
+        "maplist-str" => ord_main::<MapList<OKey, String>>(a, tr),
+        "settree-i32" => ord_main::<SetTree<OKey, PV<i32>>>(a, tr),
+        "settree-str" => ord_main::<SetTree<OKey, PV<String>>>(a, tr),
+        "setlist-i32" => ord_main::<SetList<PV<i32>>>(a, tr),
+        "setlist-str" => ord_main::<SetList<PV<String>>>(a, tr),
+        "seg-i32" if a.driver == "matrix" => seg::run_matrix(tr, a.num("from", 0), a.num("to", 528)),
+        "seg-i32" => seg_main::<i32>(a, tr),
+        "seg-u32" => seg_main::<u32>(a, tr),
+        "seg-i64" => seg_main::<i64>(a, tr),
         c => {
             eprintln!("unknown collection {c}");
             std::process::exit(2);
         }
     }
-    tr.finish(&a.stats);
 }
